@@ -37,14 +37,16 @@ NxtSetup(s, e, one) ==
   IF e.ret = 0 THEN [stage |-> IF one THEN "stone" ELSE "chosen", ch |-> e.ch, rate |-> e.rate, low |-> Unknown, ib |-> Unknown, cpl |-> 1,
                      man |-> (e.e \in {"SetupManaged", "InitManaged"})]
   ELSE IF one THEN InitEnc
-  ELSE [s EXCEPT !.stage = IF s.stage = "chosen" THEN "inited" ELSE s.stage]      \* a failed choice leaves no usable mode
+  \* a refused choice may or may not have disturbed an earlier successful one (an argument check refuses before anything is touched,
+  \* a missing template refuses after the old choice is gone): nothing is promised about setup_init until the next successful choice
+  ELSE [s EXCEPT !.stage = IF s.stage = "chosen" THEN "maybe" ELSE s.stage]
 
 ChkSetupInit(s, e) ==
   (IF e.ret \notin SetupCodes THEN {"SetupReturnsDocumentedCode"} ELSE {}) \cup
   (IF s.stage = "inited" /\ e.ret = 0 THEN {"SetupInitNeedsAChosenMode"} ELSE {}) \cup
   (IF s.stage = "chosen" /\ e.ret = 0 /\ (e.vch # s.ch \/ e.vrate # s.rate) THEN {"SuccessReportsChannelsAndRate"} ELSE {}) \cup
   (IF e.ret = 0 /\ e.stone # 1 THEN {"SetupInitFreezesSettings"} ELSE {})
-NxtSetupInit(s, e) == IF e.ret = 0 THEN [s EXCEPT !.stage = "stone"] ELSE s
+NxtSetupInit(s, e) == IF e.ret = 0 THEN [s EXCEPT !.stage = "stone", !.ch = e.vch, !.rate = e.vrate] ELSE s
 
 \* control requests.  what: rm2get rm2set rm2null lowget lowset ibget ibset cpget cpset raw
 IsSet(w) == w \in {"rm2set", "rm2null", "lowset", "ibset", "cpset"}
@@ -65,7 +67,7 @@ ChkCtl(s, e) ==
        \/ e.damp1000 <= 0 \/ e.resbits < 0 \/ e.bias1000 < 0 \/ e.bias1000 > 1000)
    THEN {"InconsistentRateRequestRefused"} ELSE {})
 NxtCtl(s, e) ==
-  IF e.ret # 0 THEN s
+  IF e.ret # 0 THEN (IF e.what = "cpset" /\ s.stage # "stone" THEN [s EXCEPT !.cpl = Unknown] ELSE s)      \* a refused coupling request may already have stored the flag
   ELSE CASE e.what = "lowset" -> [s EXCEPT !.low = Clamp(e.hz, 2000, 99000)]
          [] e.what = "ibset"  -> [s EXCEPT !.ib = Clamp(e.x10, -150, 0)]
          [] e.what = "cpset"  -> [s EXCEPT !.cpl = IF e.v # 0 THEN 1 ELSE 0]
